@@ -178,23 +178,12 @@ func (o *oracle) oracleFingerprint() {
 		if mode == 3 {
 			raw = append(raw, o.randBytes(1+o.rng.Intn(8))...)
 		}
-		if mode <= 1 && o.rng.Intn(2) == 0 { // every single-bit flip must be detected while FINGERPRINT stays the only such attribute
+		if mode <= 1 && o.rng.Intn(2) == 0 { // a single-bit flip anywhere (also in the FINGERPRINT attribute's own type and length fields): judged like every other input, by the RFC reference below
 			bit := o.rng.Intn(len(raw) * 8)
-			raw[bit/8] ^= 1 << uint(bit%8)
-			d := new(Message)
-			if Decode(raw, d) == nil {
-				r, _ := refParse(raw)
-				nfp := 0
-				for _, a := range r.attrs {
-					if a.typ == 0x8028 {
-						nfp++
-					}
-				}
-				if nfp == 1 && Fingerprint.Check(d) == nil {
-					o.failf("bit flip %d of a fingerprinted message goes undetected (%s)", bit, hexs(raw))
-				}
+			if o.rng.Intn(3) == 0 && len(raw) >= 8 {
+				bit = (len(raw)-8)*8 + o.rng.Intn(32) // the attribute header of the trailing FINGERPRINT
 			}
-			continue
+			raw[bit/8] ^= 1 << uint(bit%8)
 		}
 		d := new(Message)
 		if Decode(inBuffer(raw, o.rng.Intn(40), 0x5A), d) != nil {
